@@ -27,6 +27,7 @@ package main
 
 import (
 	"fmt"
+	"os"
 	"runtime/debug"
 	"strings"
 	"time"
@@ -410,8 +411,24 @@ func mutate(m *refwriter.File, p prep, op Op) result {
 
 func gen(tier string, emit func(engine.Case) bool) {
 	maxLen := 3
+	// merged search (merged.go): depth over the deep alphabet / over the core
+	// alphabet, and the share of the run's time the first of the two may use
+	deepDepth, coreDepth, deepShare := 5, 0, time.Duration(0)
 	if tier == "thorough" {
-		maxLen = 4
+		deepDepth, coreDepth, deepShare = 7, 5, 15*time.Minute
+	}
+	if s := os.Getenv("VERIF_C12_MERGED_DEPTH"); s != "" {
+		var a, b int
+		if n, _ := fmt.Sscanf(s, "%d,%d", &a, &b); n == 2 {
+			deepDepth, coreDepth = a, b
+		}
+	}
+	// states up to this depth are judged by the unmerged enumeration; the
+	// merged search hands deeper ones to the oracle (0 in a merged-only run,
+	// which is how the merged search is validated against seeded changes)
+	judgedDepth := maxLen
+	if os.Getenv("VERIF_C12_ONLY_MERGED") != "" {
+		judgedDepth = 0
 	}
 	full := alphabetFor(tier)
 	inits := make([]*refwriter.File, len(initialFiles))
@@ -421,7 +438,7 @@ func gen(tier string, emit func(engine.Case) bool) {
 	// simplest first: by history length, then by initial file, then in
 	// alphabet order. Histories are pruned only by applicability in the
 	// model (target body / block exists).
-	for l := 0; l <= maxLen; l++ {
+	for l := 0; l <= maxLen && os.Getenv("VERIF_C12_ONLY_MERGED") == ""; l++ {
 		// histories of length 4 are built from the core alphabet only (every
 		// prefix of such a history is among the length-3 histories)
 		candidates := full
@@ -463,6 +480,20 @@ func gen(tier string, emit func(engine.Case) bool) {
 				return
 			}
 		}
+	}
+	// beyond that depth: breadth-first search with state merging over the
+	// core alphabet (merged.go)
+	if deepDepth > maxLen {
+		dl := engine.RunDeadline
+		if deepShare > 0 && time.Now().Add(deepShare).Before(dl) {
+			dl = time.Now().Add(deepShare)
+		}
+		if !genMerged("deep", alphabetDeep, deepDepth, judgedDepth, dl, emit) {
+			return
+		}
+	}
+	if coreDepth > maxLen {
+		genMerged("core", alphabetQuick, coreDepth, judgedDepth, engine.RunDeadline, emit)
 	}
 }
 
@@ -525,8 +556,10 @@ func main() {
 	engine.Main(&engine.Check{
 		ID:        "C12",
 		Title:     "Any sequence of writer-API edits leaves a valid file that matches the edits",
-		Technique: "explicit-state exploration of all bounded operation histories on the real hclwrite objects, compared after every step with a map/list reference model",
-		Rule: fmt.Sprintf("all sequences of <= 3 operations over a core alphabet of %d edit operations (quick) / all sequences of <= 3 operations over the full alphabet of %d operations plus all sequences of 4 operations over the core alphabet (thorough) "+
+		Technique: "explicit-state exploration of all bounded operation histories on the real hclwrite objects (unmerged to depth 3, breadth-first with heap-isomorphism state merging beyond), compared after every step with a map/list reference model",
+		Rule: fmt.Sprintf("all sequences of <= 3 operations over a core alphabet of %d edit operations (quick) / over the full alphabet of %d operations (thorough), without state merging; beyond depth 3 a breadth-first search WITH state merging "+
+			"(state key = canonical form, up to address values and with all aliasing, of the private object graph of the real file + the caller's values + the complete model state + the model-to-real block binding; every transition is executed on fresh real objects and checked for panics and documented return values, every state not seen before gets the complete oracle) "+
+			"over a 21-operation sub-alphabet of node-replacing/detaching/appending operations to depth 5 (quick) / 7 (thorough) and over the core alphabet to depth 5 as far as the time allows (thorough); per-level frontier, transitions and new states are in merged_search_levels. Operations: "+
 			"(SetAttributeValue/Raw/Traversal, SetAttributeRaw with the tokens of another attribute's expression (same body / root body), RenameAttribute, RemoveAttribute, AppendNewBlock, AppendBlock of a new / pre-populated / previously removed block, RemoveBlock of block #i or of a foreign block, "+
 			"Block.SetType, Block.SetLabels, AppendNewline, AppendUnstructuredTokens; names a,b,c; values 1,true,\"s\",list; raw tokens x.y, 1+2, 7, null, \"q\"; labels [],[l],[l,m]; every Tokens value is made once per history and passed again to every operation with the same raw id, so attributes share *Token objects; "+
 			"caller-side steps caller-overwrite(id) / caller-refill(id): element 0 of the caller's Tokens value id is overwritten with another token / the value is truncated and refilled with one other token, offered once that value has been handed to a SetAttributeRaw, a later SetAttributeRaw with the id passes the value as it is then) "+
@@ -534,12 +567,13 @@ func main() {
 			"items with a #/'//' line comment directly followed by comment lines at three depths). "+
 			"Every history of length <= 2 with a slice argument, and every longer history in which at least two operations pass the same kind of slice argument (Tokens of SetAttributeRaw; labels of AppendNewBlock/NewBlock/SetLabels; traversal of SetAttributeTraversal), is additionally run in its scratch-buffer variant (+scratch): the caller builds each such argument in one reused buffer per kind (buf = append(buf[:0], ...), BuildTokens(buf[:0])) and overwrites all its elements with placeholders as soon as the call has returned. "+
 			"The model (the writer owns what it was given at the time of the call) is the same for both variants. "+
-			"An operation is offered only where its target (and source attribute) exists in the model. No state merging: every history is replayed from scratch on a fresh file. "+
+			"An operation is offered only where its target (and source attribute) exists in the model. Every history (in the merged search: the first history reaching a state) is replayed from scratch on a fresh file. "+
 			"The complete oracle (parses; items = model; untouched items keep their text; per body, every comment of the initial file not attached to a removed item is still there, in order) judges the final state of every history (the space is prefix-closed, so that is every reachable state); intermediate steps are checked for panics, documented results and accessor agreement. "+
 			"Distinct = distinct (final model state, final serialised bytes).", len(alphabetQuick), len(alphabetThorough), len(initialFiles)),
 		Assumptions: []string{
 			"hclsyntax.ParseConfig/LexConfig are trusted to read the serialised output back (attribute names, expression ranges, block types/labels, token boundaries)",
 			"go-cty evaluation of literal expressions is trusted for the semantic fallback comparison of generated values",
+			"merged search: equal state keys have equal futures provided hclwrite does not depend on address values, on map iteration order or on slice elements beyond len (the part of the heap that is not in the key)",
 			"return values of SetAttributeValue/Raw/Traversal are not asserted (they are results of an edit, not read accessors; see FINDINGS.md note)",
 		},
 		Gen:    gen,
@@ -554,9 +588,13 @@ func main() {
 			for k, v := range counters.Snapshot() {
 				m[k] = v
 			}
+			mergedMu.Lock()
+			m["merged_search_levels"] = append([]mergedStats(nil), mergedLevels...)
+			mergedMu.Unlock()
+			m["merged_search_distinct_states"] = mergedSeenSize.Load()
 			return m
 		},
 		QuickBudget:    6 * time.Minute,
-		ThoroughBudget: 40 * time.Minute,
+		ThoroughBudget: 60 * time.Minute,
 	})
 }
